@@ -26,7 +26,7 @@ SHAPES_Q = [(1, 1), (1, 2), (2, 1), (2, 2), (3, 2)]
 SHAPES_T = [(1, 1), (1, 2), (1, 3), (2, 1), (3, 1), (2, 2), (3, 2), (2, 3), (3, 3)]
 BOUNDS = {
     "quick": {"shapes": SHAPES_Q, "after": ["last", "P", "O"], "pad_cap": 2, "task_budget_s": 900},
-    "thorough": {"shapes": SHAPES_T, "after": ["last", "P", "O", "X"], "pad_cap": 3, "task_budget_s": 3000},
+    "thorough": {"shapes": SHAPES_T, "after": ["last", "P", "O", "X"], "pad_cap": 2, "task_budget_s": 3000},
 }
 ASSUMPTIONS = [
     "numpy.genfromtxt is a contract stub (skip_header physical lines, '#' comments, blank lines skipped, max_rows counted in data rows, equal row widths or ValueError, squeeze of 1-row/1-column/1x1 results), validated against the real function on 44286 small files each run",
